@@ -114,6 +114,8 @@ func init() {
 		6: mk("[-i] [-o]", &ref.Decl{Opts: []ref.OptDecl{vo("i"), vo("o")}}, "i"),
 		7: mk("N", &ref.Decl{Args: []string{"N"}}, "N"),
 		8: mk("[-f] [-- X...]", &ref.Decl{Opts: []ref.OptDecl{fl("f")}, Args: []string{"X"}}),
+		// a command that itself declares an option named h / help (help requests still win)
+		9: mk("[-h] [X]", &ref.Decl{Opts: []ref.OptDecl{{Key: "h", Names: []string{"-h", "--help"}, Flag: true}}, Args: []string{"X"}}),
 	}
 }
 
@@ -151,7 +153,11 @@ func buildTree(root *tnode, to treeOpts) (*cli.Cli, *treeRun) {
 		var readers []func() string
 		for _, o := range k.decl.Opts {
 			o := o
-			name := o.Key + " " + o.Key + o.Key
+			var nn []string
+			for _, x := range o.Names {
+				nn = append(nn, strings.TrimLeft(x, "-"))
+			}
+			name := strings.Join(nn, " ")
 			switch {
 			case o.Flag:
 				p := cmd.BoolOpt(name, false, "")
